@@ -264,39 +264,6 @@ func (f *front) serve(ctx context.Context, addr string, req *tikvrpc.Request, ti
 			out.Ttl = uint64((rem + time.Second - 1) / time.Second)
 		}
 		return &tikvrpc.Response{Resp: out}, nil
-	case tikvrpc.CmdRawCompareAndSwap:
-		r := req.RawCompareAndSwap()
-		found, reResp, err := f.probe(addr, req, r.Key)
-		if err != nil {
-			return nil, err
-		}
-		if reResp != nil {
-			re, _ := reResp.GetRegionError()
-			return &tikvrpc.Response{Resp: &kvrpcpb.RawCASResponse{RegionError: re}}, nil
-		}
-		if !found {
-			f.audit(req)
-			out := &kvrpcpb.RawCASResponse{PreviousNotExist: true}
-			if r.PreviousNotExist {
-				f.mvcc.RawPut(cfName, r.Key, r.Value)
-				f.setTTL(r.Key, r.Ttl)
-				out.Succeed = true
-			}
-			return &tikvrpc.Response{Resp: out}, nil
-		}
-	case tikvrpc.CmdRawBatchDelete:
-		// the mock executes a RawBatchDelete even when its region check fails (the error branch in
-		// rpc.go lacks the return) and answers without the region error
-		if r := req.RawBatchDelete(); len(r.Keys) > 0 {
-			_, reResp, err := f.probe(addr, req, r.Keys[0])
-			if err != nil {
-				return nil, err
-			}
-			if reResp != nil {
-				re, _ := reResp.GetRegionError()
-				return &tikvrpc.Response{Resp: &kvrpcpb.RawBatchDeleteResponse{RegionError: re}}, nil
-			}
-		}
 	}
 	resp, err := f.inner.SendRequest(ctx, addr, req, timeout)
 	if err != nil || resp == nil || resp.Resp == nil {
@@ -335,11 +302,6 @@ func (f *front) serve(ctx context.Context, addr string, req *tikvrpc.Request, ti
 	case tikvrpc.CmdRawScan:
 		r := req.RawScan()
 		kvs := resp.Resp.(*kvrpcpb.RawScanResponse).Kvs
-		if r.KeyOnly {
-			for _, kv := range kvs {
-				kv.Value = nil
-			}
-		}
 		// reach probe: the limit ran out exactly at the last pair of this region although the
 		// requested range goes on in the next region
 		if region, _ := f.cluster.GetRegion(req.Context.GetRegionId()); region != nil && len(kvs) > 0 && uint32(len(kvs)) == r.Limit {
@@ -473,10 +435,6 @@ func newWorld(s *simkit.Sim, sc *Scenario) (*world, error) {
 	for _, k := range sc.Splits {
 		w.topo.splitExact([]byte(k))
 	}
-	// the mock creates the database of a column family on its first write and its batch-get
-	// handler panics when there is none yet
-	mvcc.RawPut(cfName, []byte("a"), []byte("x"))
-	mvcc.RawDelete(cfName, []byte("a"))
 	w.layout0 = w.topo.Describe()
 	w.regions0 = w.topo.regions()
 	w.front = &front{inner: mocktikv.NewRPCClient(w.cluster, mvcc, nil), mvcc: mvcc, cluster: w.cluster, sim: s, expire: map[string]time.Duration{}}
